@@ -240,11 +240,35 @@ fn trunc_laws(u: u8, ts: &[i64], ctx: &mut Ctx) {
     let fam = "duration_trunc";
     let unit_ns = 1_000_000_000 / PER_SEC[u as usize] as i128;
     let grains: [(&str, i128); 6] = [("1s", 1_000_000_000), ("1m", 60_000_000_000), ("15m", 900_000_000_000), ("1h", 3_600_000_000_000), ("1d", 86_400_000_000_000), ("1w", 604_800_000_000_000)];
-    for &t in ts {
+    // a wide set of month-free grains (every count 1..=60 and some larger ones, in every unit from ns to h) on a
+    // subset of the instants: a fast path keyed on "the grain tiles the day / the hour" must agree with the
+    // plain greatest-multiple rule for every grain, not only for the usual 1s / 1m / 15m / 1h / 1d
+    let mut wide: Vec<(String, i128)> = vec![];
+    for (un, uns) in [("ns", 1i128), ("us", 1_000), ("ms", 1_000_000), ("s", 1_000_000_000), ("m", 60_000_000_000), ("h", 3_600_000_000_000)] {
+        for count in (1..=60i128).chain([90, 94, 100, 120, 141, 235, 360, 500, 705, 1000, 1440]) {
+            let gns = count * uns;
+            if gns % unit_ns == 0 {
+                wide.push((format!("{count}{un}"), gns));
+            }
+        }
+    }
+    for (idx, &t) in ts.iter().enumerate() {
         ctx.states += 1;
         ctx.fam(fam).states += 1;
         ctx.nontrivial(fam, hash_u64s(&[u as u64, t as u64, 99]));
         let t_ns = t as i128 * unit_ns;
+        if idx % 11 == 0 {
+            for (g, gns) in &wide {
+                ctx.transitions += 1;
+                let d = TimeDelta::parse(g).unwrap();
+                let want = (t_ns.div_euclid(*gns) * gns / unit_ns) as i64;
+                let got = by_unit!(u, U => catch(|| DateTime::<U>::new(t).duration_trunc(d).into_i64()));
+                ctx.eval(fam, match &got { Outcome::Ok(g) => *g as u64, _ => 1 });
+                if !matches!(got, Outcome::Ok(g) if g == want) {
+                    viol(ctx, "duration_trunc(month-free)", None, json!({"family": fam, "unit": UNITS[u as usize], "t": t, "grain": g}), format!("{want}"), format!("{got:?}"));
+                }
+            }
+        }
         for (g, gns) in grains {
             ctx.transitions += 1;
             let d = TimeDelta::parse(g).unwrap();
